@@ -103,7 +103,7 @@ func runC12(w *mon.W) {
 	w.Extra("exhaustive", false)
 
 	// structured long strings
-	nStruct := w.Pick(4000, 12000)
+	nStruct := w.Pick(4000, 60000)
 	maxLen := w.Pick(100000, 1000000)
 	for i := 0; i < nStruct; i++ {
 		id := fmt.Sprintf("struct-%d", i)
